@@ -153,6 +153,8 @@ impl RSNarrow {
                 break;
             }
             hint_start += 1;
+            #[cfg(qwt_verif)]
+            crate::verif::sched_point();
         }
         position = hint_start - 1;
         // rank = self.block_rank(position);
@@ -196,6 +198,8 @@ impl RSNarrow {
                 break;
             }
             hint_start += 1;
+            #[cfg(qwt_verif)]
+            crate::verif::sched_point();
         }
         position = hint_start - 1;
         // rank = position * max_rank_for_block - self.block_rank(position);
